@@ -367,8 +367,9 @@ class Mismatch:
 
 
 class Tol:
-    def __init__(self, time_s=1e-10, rel=1e-9, data_rel=1e-5, data_abs=1e-5, exact_data=False):
+    def __init__(self, time_s=1e-10, rel=1e-9, data_rel=1e-5, data_abs=1e-5, exact_data=False, num_abs=0.0):
         self.time_s, self.rel, self.data_rel, self.data_abs, self.exact_data = time_s, rel, data_rel, data_abs, exact_data
+        self.num_abs = num_abs      # absolute slack for scalar results that are differences of much larger terms
 
 
 def _num_close(g, w, rel, abs_=0.0):
@@ -457,7 +458,7 @@ def compare_concrete(got, want, tol: Tol, where, out, pb):
             return
         if isinstance(want.val, SArr):
             compare_concrete(got.val, want.val, Tol(exact_data=True), where + ".val", out, pb)
-        elif not _num_close(got.val, want.val, tol.rel):
+        elif not _num_close(got.val, want.val, tol.rel, getattr(tol, "num_abs", 0.0)):
             out.append(Mismatch(where + ".val", float(got.val), float(want.val)))
         return
     if isinstance(want, STime):
@@ -494,7 +495,7 @@ def compare_concrete(got, want, tol: Tol, where, out, pb):
             out.append(Mismatch(where, got, want))
         elif isinstance(want, int) and (not isinstance(got, int) or got != want):
             out.append(Mismatch(where, got, want))
-        elif not _num_close(got, want, tol.rel, 1e-300):
+        elif not _num_close(got, want, tol.rel, max(1e-300, getattr(tol, "num_abs", 0.0))):
             out.append(Mismatch(where, got, want))
         return
     if isinstance(want, SSlice):
